@@ -20,6 +20,12 @@ const opv1Path = modPath + "/encoder/opv1"
 
 func propC11(c *Ctx) {
 	l := c.L
+	defer func() {
+		rdr := c.Rule("decode-reentrant", "the version 1 converter and the other decoding functions keep no state in package-level variables (the converted program depends on the image alone)", 1)
+		if fns := decodeFuncs(c, rdr); fns != nil {
+			ruleDecodeReentrant(c, rdr, fns)
+		}
+	}()
 	rn := c.Rule("opcode-num", "every opcode of the version 1 format has the same number in today's VM (the decoded bytes are executed as they are)", 40)
 	p1, p2 := l.ByPath[opv1Path], l.ByPath[modPath]
 	if !c.Anchor(rn, "packages encoder/opv1 and ugo", p1 != nil && p2 != nil) {
